@@ -20,7 +20,8 @@
 (* the intercept: residuals sum to 0), gap (>= 0), stop (stopped before    *)
 (* the budget => gap below tolerance * ||y||^2), perturb (no step of       *)
 (* +-1, +-0.1, +-0.01 in any coefficient or the intercept lowers the       *)
-(* objective by more than the reported gap).                               *)
+(* objective by more than the reported gap; multi-task: every entry of W   *)
+(* and every intercept).                                                   *)
 (* Clauses for "loose": res..b0, gap, stop, ub (the reported gap bounds    *)
 (* the suboptimality Obj(loose) - Obj(fit), Obj(fit) being certified       *)
 (* optimal by the kkt clauses), nb (the loose point is not better than     *)
@@ -130,6 +131,11 @@ PerturbOk(ev, rm, cm) ==
   /\ (T = 1 /\ Kind /= "mtl") =>
         \A jj \in 1..P : LET sl == PSlack(ev, jj) IN \A dn \in {-1, 1} : \A dd \in {1, 10, 100} :
            ev.gap > GCAP \/ PerturbCoord(Pen, N, X, cm, ev.w, jj, dn, dd, S) >= -GapN(ev) - sl
+  /\ Kind = "mtl" =>
+        \A jj \in 1..P : LET sl == PSlack(ev, jj) + (T * PTh(Pen, N)) \div PD(Pen) IN
+        \A tt \in 1..T : \A dn \in {-1, 1} : \A dd \in {1, 10, 100} :
+           ev.gap > GCAP \/ PerturbEntryLo(Pen, N, X, cm, ev.w, jj, tt, dn, dd, S)
+                               >= -GapN(ev) - sl - PerturbEntrySlack(Pen, N, ev.w, jj, tt, dn, dd, S)
   /\ (In.icpt /\ IcptStrictR(ev, rm)) =>
         LET sl == (N + 1) \div 2 + Al0(ev) + 4 IN
         \A tt \in 1..T : \A dn \in {-1, 1} : \A dd \in {1, 10, 100} :
